@@ -36,6 +36,9 @@ pub struct CfgOpts {
     /// per mille of nodes that are given the peer's (true) static public key although the pattern
     /// does not pre-share it (a pinned, superfluous key - allowed by the builder)
     pub surplus_rs: u32,
+    /// per mille of P-256 sessions in which one party is byzantine: it announces (transmits) a
+    /// static public key that is not a curve point, and otherwise follows the protocol
+    pub evil_pub: u32,
     /// use exactly this protocol name (systematic enumerations)
     pub force_name: Option<String>,
     /// use exactly this backend on both nodes
@@ -54,6 +57,7 @@ impl Default for CfgOpts {
             only_dh: None,
             snow_keygen: 0,
             surplus_rs: 0,
+            evil_pub: 0,
             force_name: None,
             force_backend: None,
         }
@@ -217,10 +221,29 @@ pub fn gen_session(rng: &mut Rng, name: &str, opts: &CfgOpts, seed_salt: u64) ->
             backend: pick_backend(rng, opts.backends),
             rng_seed: mix(rng.next_u64(), seed_salt),
             deny: None,
+            evil_static_pub: false,
         }
     };
-    let a = mk(true, rng);
-    let b = mk(false, rng);
+    let mut a = mk(true, rng);
+    let mut b = mk(false, rng);
+    if opts.evil_pub > 0 && proto.dh == DhK::P256 && rng.chance(opts.evil_pub as u64, 1000) {
+        // only a static key that is transmitted (not pre-shared) can be announced falsely without
+        // the configuration itself being inconsistent
+        let cand: Vec<bool> = [true, false]
+            .into_iter()
+            .filter(|&ini| proto.needs_local_static(ini) && !proto.needs_remote_static(!ini))
+            .collect();
+        if !cand.is_empty() {
+            let ini = cand[rng.usize_below(cand.len())];
+            if ini {
+                a.evil_static_pub = true;
+                b.rs_pub = None;
+            } else {
+                b.evil_static_pub = true;
+                a.rs_pub = None;
+            }
+        }
+    }
     (a, b)
 }
 
@@ -276,9 +299,12 @@ pub fn gen_plen(rng: &mut Rng, max: usize, big: bool) -> u32 {
         13 => 1024,
         14 if big => max as u64,
         15 if big => max.saturating_sub(1) as u64,
-        16 if big => rng.range(2049, max as u64),
-        17..=24 => rng.range(18, 200),
-        25..=27 => rng.range(200, 2048),
+        16 if big => *rng.pick(&[16_383u64, 16_384, 16_385, 20_000, 32_768, 40_000]),
+        26 if big => rng.range(2049, max as u64),
+        17..=23 => rng.range(18, 200),
+        24 => *rng.pick(&[255u64, 256, 257, 511, 512, 513, 2047, 2048, 2049]),
+        25 => rng.range(4076, 4100),
+        27 => rng.range(200, 2048),
         _ => rng.range(1, 64),
     };
     v.min(max as u64) as u32
@@ -445,10 +471,14 @@ impl<'a> Driver<'a> {
     }
 
     fn gen_ok_buf(&mut self) -> Buf {
-        match self.rng.below(6) {
+        match self.rng.below(8) {
             0 => Buf::Delta(16),
             1 => Buf::Abs(65535),
             2 => Buf::Abs(70_000),
+            // exact fit (for a cleartext handshake payload this lies in snow's spare-tag window,
+            // where either outcome is accepted)
+            3 => Buf::Exact,
+            4 => Buf::Delta(self.rng.range(1, 15) as i32),
             _ => Buf::Ample,
         }
     }
@@ -601,7 +631,8 @@ impl<'a> Driver<'a> {
                     match self.rng.below(8) {
                         0..=3 => {
                             let m = self.gen_mutation();
-                            step!(self, Op::Read { node: rd as u8, src: Src::Pick { k: 0, consume: false }, mutation: m, out: Buf::Ample, nonce: NonceSel::Auto });
+                            let out = if self.rng.chance(1, 2) { *self.rng.pick(&[Buf::Exact, Buf::Delta(1), Buf::Delta(8), Buf::Delta(15), Buf::Delta(16), Buf::Delta(40)]) } else { Buf::Ample };
+                            step!(self, Op::Read { node: rd as u8, src: Src::Pick { k: 0, consume: false }, mutation: m, out, nonce: NonceSel::Auto });
                         },
                         4 => {
                             // genuine message, payload buffer too small
